@@ -35,6 +35,34 @@ CLAIMED = {
             "cost consistency and optimality: a dual lower bound evaluated in rationals proves the returned cost is within 1e-4 of "
             "optimal; rejections are confirmed by the exact QP. Thorough adds n=5 and families to 60 variables.",
             "trusted: mc/oracles.py (dual bound arithmetic, qp_exact), self-tested against PAVA in ./setup", "DESIGN.md section 4 C05"),
+    "C12": ("exhaustive grid of domains/ranges/queries against an exact rational affine map, plus breadth-first search over "
+            "API-call histories (domain/range/clamp/nice/copy on a pool of scales) with aliasing-aware state fingerprints",
+            "E-INPUT: all (domain, range, query) combinations of a 14-value float grid; E-HIST: every call history up to depth 4 "
+            "(thorough 6) on <=3 scales, each state rebuilt on fresh real objects; invariants: reported end points map to reported "
+            "range, no cross-scale interference.",
+            "trusted: Fraction arithmetic; fingerprint only deduplicates, it is over-fine by construction", "DESIGN.md section 4 C12"),
+    "C13": ("bounded-exhaustive enumeration of a mantissa x exponent grid of linear domains x every m in 1..100 on the real "
+            "ticks()/tickFormat(); tick-set invariants",
+            "Every admissible ordered pair from a 133-value (thorough 353) grid x 101 counts; invariants on step form, spacing, "
+            "completeness, count, labels.", "trusted: float tolerances stated in the module", "DESIGN.md section 4 C13"),
+    "C14": ("bounded-exhaustive enumeration of linear domains (C13 grid) and time domains (calendar-critical start instants x span "
+            "ladder x counts x orientations) on the real nice(); widening/roundness invariants with a calendar reference",
+            "Linear: the C13 grid x 10 counts; time: month-end/year-end/leap starts x 3 times of day x 38 spans x 6 counts x 2 "
+            "orientations; step measured through the public ticks().", "trusted: mc/cal.py (datetime/calendar arithmetic)",
+            "DESIGN.md section 4 C14"),
+    "C15": ("exhaustive enumeration of ordered pairs of domain instants x ranges x query instants on the real TimeScale against an "
+            "exact affine map on epoch milliseconds",
+            "All ordered pairs of 41 (thorough 120) instants spanning 1900-2200 x 3 ranges x 11 queries; exact rational reference; "
+            "round trip within 1 ms; agreement with LinearScale.", "trusted: datetime arithmetic for naive epoch milliseconds",
+            "DESIGN.md section 4 C15"),
+    "C16": ("bounded-exhaustive enumeration of time domains (calendar-critical start instants x 42-rung span ladder x counts x "
+            "orientations) on the real TimeScale.ticks(); tick invariants with a calendar reference",
+            "Every combination of the stated grids; oracle derives the calendar class from the smallest gap and checks every tick "
+            "against R-CAL; count and gap-ratio bounds; sub-millisecond-per-tick domains.", "trusted: mc/cal.py", "DESIGN.md section 4 C16"),
+    "C17": ("complete enumeration of every day in the year set x 3 instants x 7 units x floor/ceil/round/offset and a grid of "
+            "ranges, against a calendar reference model (datetime/timedelta/calendar)",
+            "Thorough covers every day 1900-2200; quick covers 9 boundary years; ranges over month-end/week-boundary starts x 5 spans "
+            "x steps 1..12.", "trusted: mc/cal.py; week numbering for dt>1 judged numbering-agnostically", "DESIGN.md section 4 C17"),
     "C20": ("exhaustive enumeration of the finite domain (all indices 0..10^6, all hex codes) on the real functions",
             "Complete enumeration: every index 0..10^6 against the shortlex sequence, every 3-digit code and (thorough) "
             "every 6-digit code in both cases against integer parsing. Within the stated domain this is total coverage.",
